@@ -383,6 +383,9 @@ var c07Claims = []string{"user", "email", "groups", "preferred_username", "acces
 const c07EnvName = "C07_VF_ENV_SECRET"
 const c07EnvSecret = "env-secret-7Q"
 
+// prefixes: ending in a separator, single characters, with inner space, non-ASCII
+var c07Prefixes = []string{"p-", "Bearer ", "grp:", "ü=", "x y ", "oidc:", "x-", "g", ":", "role/"}
+
 func c07RandVal(rng *rand.Rand, n *int) c07Val {
 	*n++
 	srcs := []string{"value", "fromFile", "fromEnv"}
@@ -403,7 +406,7 @@ func c07RandVal(rng *rand.Rand, n *int) c07Val {
 		}
 		switch rng.Intn(5) {
 		case 0:
-			v.Prefix = []string{"p-", "Bearer ", "grp:", "ü=", "x y "}[rng.Intn(5)]
+			v.Prefix = c07Prefixes[rng.Intn(len(c07Prefixes))]
 		case 1:
 			v.Basic, v.Src, v.Pw = true, srcs[rng.Intn(3)], fmt.Sprintf("pw%d", *n)
 			if v.Src == "fromEnv" {
@@ -592,6 +595,62 @@ func c07CookieIdents() []c07Ident {
 	}
 }
 
+// c07CfgPrefixes: the prefixes this configuration puts in front of identity claims.
+func c07CfgPrefixes(cfg *c07Cfg) []string {
+	var out []string
+	seen := map[string]bool{}
+	for _, hs := range [][]c07Hdr{cfg.Req, cfg.Resp} {
+		for _, h := range hs {
+			for _, v := range h.Vals {
+				if v.Kind != "claim" || v.Basic || v.Prefix == "" || seen[v.Prefix] {
+					continue
+				}
+				switch v.Claim {
+				case "user", "email", "groups", "preferred_username":
+					seen[v.Prefix] = true
+					out = append(out, v.Prefix)
+				}
+			}
+		}
+	}
+	if len(out) > 4 {
+		out = out[:4]
+	}
+	return out
+}
+
+// c07PrefixIdents: identities correlated with the configuration — for every configured prefix P, values equal to P,
+// starting with P, starting with P twice and containing P in the middle, in groups / user / e-mail / preferred_username.
+// The reference stays prefix+value verbatim: a user in a group literally named "oidc:admin" must arrive as
+// "oidc:oidc:admin", never as "oidc:admin" (which is what a member of "admin" looks like).
+// Values that would END in white space are never placed last in a header line (HTTP trims it at the receiver).
+func c07PrefixIdents(cfg *c07Cfg) []c07Ident {
+	ps := c07CfgPrefixes(cfg)
+	if len(ps) == 0 {
+		return nil
+	}
+	endsWS := func(x string) bool { return strings.TrimRight(x, " \t") != x }
+	var g1 []string
+	for _, p := range ps {
+		g1 = append(g1, p+"admin", p+p+"x", p, "mid"+p+"dle")
+	}
+	g1 = append(g1, "admin")
+	p1 := ps[0]
+	p2 := ps[len(ps)-1]
+	eq := p1
+	if endsWS(eq) {
+		eq = p1 + p1 + "x"
+	}
+	out := []c07Ident{
+		{Label: "c-prefix-start", Class: "values-start-with-configured-prefix", Sub: p1 + "admin", Email: p1 + "admin@example.com", PU: p1 + "admin", Groups: g1},
+		{Label: "c-prefix-equal", Class: "values-equal-configured-prefix", Sub: "mid" + p1 + "dle", Email: p2 + p2 + "x@example.com", PU: eq, Groups: []string{p1, p2 + "admin", "tail"}},
+	}
+	if len(ps) > 1 {
+		out = append(out, c07Ident{Label: "c-prefix-second", Class: "values-start-with-configured-prefix", Sub: p2 + p2 + "x", Email: "mid" + p2 + "dle@example.com", PU: p2 + "admin", Groups: []string{p2 + p2 + "x", "tail"}})
+	}
+	return out
+}
+
 func c07SHA(pw string) string {
 	h := sha1.Sum([]byte(pw))
 	return "{SHA}" + base64.StdEncoding.EncodeToString(h[:])
@@ -605,11 +664,16 @@ func c07HtpasswdFile(w *vfWorld) string {
 // attributable) and prepares the credential-per-request sessions.
 func c07BuildSessions(run *vfRun, w *vfWorld, p *vfProxy, cfg *c07Cfg, inst int, book *c07TokenBook) []*c07Sess {
 	var out []*c07Sess
-	for k, id := range c07CookieIdents() {
+	base := c07CookieIdents()
+	for k, id := range append(base, c07PrefixIdents(cfg)...) {
 		// quick tier: the standard identity plus a rotating 3 of the other 7 per instance (all of them on the fixed
-		// structured configurations); every identity meets every option bucket across the instances
-		if !run.Env.Thorough() && k > 0 && !strings.Contains(cfg.Label, "fixed") && (k-1+7-inst%7)%7 >= 3 {
+		// structured configurations); every identity meets every option bucket across the instances. The identities
+		// correlated with this configuration's prefixes are always used.
+		if !run.Env.Thorough() && k > 0 && k < len(base) && !strings.Contains(cfg.Label, "fixed") && (k-1+7-inst%7)%7 >= 3 {
 			continue
+		}
+		if k >= len(base) {
+			run.Count("sessions_correlated_with_prefix", 1)
 		}
 		sub := fmt.Sprintf("%s#%d", id.Sub, inst)
 		vid := vfIdentity{Sub: sub, Email: id.Email, PreferredUsername: id.PU, Groups: id.Groups, Profile: map[string]interface{}{"sub": sub}}
@@ -652,6 +716,10 @@ func c07BuildSessions(run *vfRun, w *vfWorld, p *vfProxy, cfg *c07Cfg, inst int,
 	mk("b-full", "all-set", map[string]interface{}{"sub": "svc-full", "email": "svc@example.com", "preferred_username": "svc-pu", "groups": []string{"m1", "m2", "m3"}})
 	mk("b-noemail", "email-from-sub", map[string]interface{}{"sub": "svc-noemail", "groups": []string{"m1"}})
 	mk("b-bare", "groups+pu-empty", map[string]interface{}{"sub": "svc-bare", "email": "bare@example.com"})
+	if ps := c07CfgPrefixes(cfg); len(ps) > 0 {
+		p1 := ps[0]
+		mk("b-prefix", "values-start-with-configured-prefix", map[string]interface{}{"sub": p1 + "svc", "email": p1 + "svc@example.com", "preferred_username": p1 + p1 + "x", "groups": []string{p1 + "admin", p1, "mid" + p1 + "dle", "tail"}})
+	}
 	if cfg.Htpasswd {
 		for _, u := range [][2]string{{"hank", "hank-pw"}, {"ivy.user", "ivy pw"}} {
 			s := &c07Sess{Label: "h-" + u[0], Source: "basic", Class: "user-only", HasSession: true, User: u[0], Groups: cfg.HtGroups, Created: "none", Expires: "none",
@@ -1079,6 +1147,13 @@ func c07FixedAlpha() []c07Cfg {
 				{Name: "X-Id-Token", Vals: []c07Val{{Kind: "claim", Claim: "id_token", Prefix: "Bearer "}}}, {Name: "Authorization", Preserve: true, Vals: []c07Val{{Kind: "claim", Claim: "email", Basic: true, Pw: "from-file-pw", Src: "fromFile"}}}},
 			Resp: []c07Hdr{{Name: "X-R-All", Vals: []c07Val{cl("user"), cl("groups"), {Kind: "secret", Secret: c07EnvSecret, Src: "fromEnv"}}}}},
 	}
+	out = append(out, c07Cfg{Label: "alpha-fixed-prefixes", Bucket: "alpha|fixed|prefixes",
+		Req: []c07Hdr{{Name: "X-Groups", Vals: []c07Val{{Kind: "claim", Claim: "groups", Prefix: "oidc:"}}}, {Name: "X-User", Vals: []c07Val{{Kind: "claim", Claim: "user", Prefix: "x-"}}},
+			{Name: "X-Email", Vals: []c07Val{{Kind: "claim", Claim: "email", Prefix: "m"}}}, {Name: "X-Pu", Vals: []c07Val{{Kind: "claim", Claim: "preferred_username", Prefix: "Bearer "}}},
+			{Name: "X-Roles", Preserve: true, Vals: []c07Val{{Kind: "claim", Claim: "groups", Prefix: ":"}, {Kind: "claim", Claim: "groups", Prefix: "role/"}}},
+			{Name: "Authorization", Vals: []c07Val{{Kind: "claim", Claim: "id_token", Prefix: "Bearer "}}}},
+		Resp: []c07Hdr{{Name: "X-Auth-Request-Groups", Vals: []c07Val{{Kind: "claim", Claim: "groups", Prefix: "oidc:"}}}, {Name: "X-Auth-Request-User", Vals: []c07Val{{Kind: "claim", Claim: "user", Prefix: "x-"}}},
+			{Name: "X-Auth-Request-Preferred-Username", Vals: []c07Val{{Kind: "claim", Claim: "preferred_username", Prefix: "g"}}}}})
 	for k := range out {
 		out[k].Kind = "alpha"
 	}
@@ -1410,7 +1485,7 @@ func TestVerif_C07(t *testing.T) {
 	run := vfNewRun(t, "C07", "exploration")
 	run.SetRule("configurations: legacy header flags (all 2^9 vectors x password on/off in thorough, covering sample of 64 in quick) + 3 fixed and 40/200 seeded random structured header lists via alpha config " +
 		"(claim/prefix/basicAuthPassword/secret value|file|env, every claim incl. created_at/expires_on, preserve on/off, strip-only entries, non-canonical names, several values per header); " +
-		"sessions: 8 cookie-login identities (fields empty/multi/Unicode/separators; quick: the standard one + a rotating 3), 3 bearer JWTs, htpasswd Basic + sign-in form (16/32 instances, those injecting time claims first), none, invalid cookie; " +
+		"sessions: 8 cookie-login identities (fields empty/multi/Unicode/separators; quick: the standard one + a rotating 3) + up to 3 cookie identities and 1 bearer JWT whose user/e-mail/groups/preferred_username equal, start with (once, twice) or contain the prefixes THIS configuration uses, 3 bearer JWTs, htpasswd Basic + sign-in form (16/32 instances, those injecting time claims first), none, invalid cookie; " +
 		"endpoints: proxied (methods rotate), bypassed (--skip-auth-route), /oauth2/auth (202/401), /oauth2/auth?allowed_groups=... (403); " +
 		"9 client header styles over the wire (canonical/lower/UPPER/mIxEd, x1-x3, comma-joined, case mix, as-configured + '_' look-alike, names listed in Connection). " +
 		"concurrent phase: 3 configurations with Basic-auth / prefix / plain / multi-valued injection x 10 users of different name lengths (8 cookie, 2 bearer) hammering the same instance simultaneously (300/1500 requests each), every request judged against its OWN session; race-detector reports in the injector are violations. " +
@@ -1423,6 +1498,15 @@ func TestVerif_C07(t *testing.T) {
 	os.Setenv(c07EnvName, c07EnvSecret)
 	c07ConcurrentPhase(run, t)
 	cfgs := c07Configs(run)
+	if only := os.Getenv("VERIF_C07_ONLY"); only != "" { // developer aid: restrict the sweep to configurations whose label contains the text (the run then ends INCONCLUSIVE by its thresholds)
+		var keep []c07Cfg
+		for _, c := range cfgs {
+			if strings.Contains(c.Label, only) {
+				keep = append(keep, c)
+			}
+		}
+		cfgs = keep
+	}
 	// Instances are built one after the other while nothing is being served (option loading and logger setup use
 	// package-level state, exactly once per process in production), then driven in parallel. One world per batch.
 	const batch = 64
@@ -1484,6 +1568,10 @@ func TestVerif_C07(t *testing.T) {
 		run.Inconclusive("too few judged header names")
 		run.Count("too_few_names", 1)
 		fmt.Printf("INCONCLUSIVE property=C07 reason=too few header names judged %v\n", []int64{run.Counter("judged_request_names"), run.Counter("judged_response_names"), run.Counter("judged_preserved_names")})
+		t.Fail()
+	}
+	if run.Counter("sessions_correlated_with_prefix") < int64(run.Env.Pick(30, 150)) {
+		fmt.Printf("INCONCLUSIVE property=C07 reason=too few sessions correlated with a configured prefix (%d)\n", run.Counter("sessions_correlated_with_prefix"))
 		t.Fail()
 	}
 	if run.Counter("concurrent_requests") < int64(run.Env.Pick(5000, 25000)) || run.Counter("concurrent_judged_names") < int64(run.Env.Pick(15000, 75000)) {
